@@ -143,7 +143,9 @@ type Op struct {
 	Level    string     `json:"level,omitempty"`
 	Terms    []Pair     `json:"terms,omitempty"`
 	ReuseD   bool       `json:"reuse_dict,omitempty"`
-	Nested   *Op        `json:"nested,omitempty"` // a read issued from inside the visitor callback
+	Nested   *Op        `json:"nested,omitempty"` // a read issued from inside the first visitor callback
+	Nest     []Op       `json:"nest,omitempty"`   // reads issued from inside callback number AtCb (1-based)
+	AtCb     int        `json:"at_cb,omitempty"`
 	G        int        `json:"g,omitempty"`
 	NoCount  bool       `json:"nocount,omitempty"`
 	Groups   [][]Op     `json:"groups,omitempty"`
@@ -1027,6 +1029,13 @@ func (e *Env) doStored(op *Op) {
 				sub.inline = true
 				sub.Do(op.Nested)
 			}
+			for k := range op.Nest {
+				if op.Nest[k].AtCb == len(vals)+1 {
+					sub := *e
+					sub.inline = true
+					sub.Do(&op.Nest[k])
+				}
+			}
 			vals = append(vals, M{"field": field, "value": B(value)})
 			if len(vals) > 100000 {
 				return false
@@ -1038,7 +1047,7 @@ func (e *Env) doStored(op *Op) {
 	if res["kind"] == "ok" {
 		res["values"] = vals
 	}
-	e.emit(M{"ev": "stored", "seg": op.Seg, "n": op.N, "stop": op.Stop, "nested": op.Nested != nil, "res": res})
+	e.emit(M{"ev": "stored", "seg": op.Seg, "n": op.N, "stop": op.Stop, "nested": op.Nested != nil || len(op.Nest) > 0, "res": res})
 }
 
 func (e *Env) doDvOpen(op *Op) {
